@@ -40,9 +40,54 @@ def expr_of(F, fn, du, op, depth=0, proj=()):
         ty = fn["locals"][l]
         return ("arg", ty, fields)
     defs = du.defs.get(l, [])
+    if len(defs) == 2 and all(d_[0] == "stmt" for d_ in defs) and not fields:
+        m = _match_on_option(F, fn, du, defs, depth)
+        if m is not None:
+            return m
     if len(defs) != 1:
         return ("?", "join of %d definitions" % len(defs))
     d = defs[0]
+    return _expr_of_def(F, fn, du, d, depth, fields)
+
+
+def _match_on_option(F, fn, du, defs, depth):
+    """`match opt { Some(x) => A, None => B }` assigning one local in both arms: ("match_opt", opt, A, B)"""
+    cfg = mir.CFG(fn)
+    for bi, b in enumerate(fn["blocks"]):
+        t = b["t"]
+        if b["cleanup"] or t["k"] != "switch":
+            continue
+        pl = mir.op_place(t["discr"])
+        scrut = None
+        for st in b["s"]:
+            if pl is not None and st["lhs"]["l"] == pl["l"] and st["rv"]["k"] == "discr" and st["rv"].get("adt", "").endswith("::Option"):
+                scrut = st["rv"]["pl"]
+        if scrut is None:
+            continue
+        tm = dict((a, b2) for a, b2 in t["targets"])
+        none_t = tm.get(0)
+        some_t = tm.get(1)
+        if none_t is None and some_t is not None:
+            none_t = t["otherwise"]
+        if some_t is None and none_t is not None:
+            some_t = t["otherwise"]
+        if none_t is None or some_t is None:
+            continue
+        arms = {}
+        for d_ in defs:
+            in_some = d_[1] == some_t or cfg.dominates(some_t, d_[1])
+            in_none = d_[1] == none_t or cfg.dominates(none_t, d_[1])
+            if in_some and not in_none:
+                arms["some"] = d_
+            elif in_none and not in_some:
+                arms["none"] = d_
+        if len(arms) == 2:
+            return ("match_opt", expr_of(F, fn, du, scrut, depth + 1),
+                    _expr_of_def(F, fn, du, arms["some"], depth + 1, ()), _expr_of_def(F, fn, du, arms["none"], depth + 1, ()))
+    return None
+
+
+def _expr_of_def(F, fn, du, d, depth, fields):
     if d[0] == "call":
         t = d[3]
         c = t.get("callee") or ""
@@ -100,6 +145,8 @@ def show(e):
         return "len(%s)" % show(e[1])
     if h == "unwrap_or":
         return "unwrap_or(%s, %s)" % (show(e[1]), show(e[2]))
+    if h == "match_opt":
+        return "match %s { Some(x) => %s, None => %s }" % (show(e[1]), show(e[2]), show(e[3]))
     if h == "call":
         return "%s(%s)" % (e[1].split("::")[-1], ", ".join(show(x) for x in e[2]))
     return "%s(%s)" % (h, ", ".join(show(x) for x in e[1:]))
